@@ -236,6 +236,10 @@ func Settle(ctx context.Context, env *Env, watchdog time.Duration, busStores int
 			stable = 0
 			last = ""
 		}
+		LastSettleState = fmt.Sprintf("quiescent=%v emitted=%d done=%d spawn=%d direct=%d queued=%d ret=%d", ok, emitted, done, spawn, direct, queued, ret)
+		for _, s := range stores {
+			LastSettleState += fmt.Sprintf(" %+v", ReplState(s))
+		}
 		select {
 		case <-ctx.Done():
 			return false
@@ -244,3 +248,6 @@ func Settle(ctx context.Context, env *Env, watchdog time.Duration, busStores int
 	}
 	return false
 }
+
+// LastSettleState describes the state seen by the last poll of Settle (diagnostics).
+var LastSettleState string
